@@ -49,6 +49,14 @@ class tar_syncer(http_syncer, base.ExternalSyncer):
         repo_name = os.path.basename(basedir)
         self.tempdir = os.path.join(repos_dir, f".{repo_name}.update")
         self.tempdir_old = os.path.join(repos_dir, f".{repo_name}.old")
+        # a sync that was interrupted (no atexit cleanup) leaves its staging
+        # dirs behind; if it died between its two renames the repo itself is
+        # still sitting in the .old dir, so put that back first.
+        if not os.path.exists(self.basedir) and os.path.isdir(self.tempdir_old):
+            if os.listdir(self.tempdir_old):
+                os.rename(self.tempdir_old, self.basedir)
+        shutil.rmtree(self.tempdir, ignore_errors=True)
+        shutil.rmtree(self.tempdir_old, ignore_errors=True)
         # remove tempdirs on exit
         atexit.register(partial(shutil.rmtree, self.tempdir, ignore_errors=True))
         atexit.register(partial(shutil.rmtree, self.tempdir_old, ignore_errors=True))
@@ -88,11 +96,16 @@ class tar_syncer(http_syncer, base.ExternalSyncer):
 
         # TODO: verify gpg data if it exists
 
+        moved_aside = False
         try:
             if os.path.exists(self.basedir):
                 # move old repo out of the way if it exists
                 os.rename(self.basedir, self.tempdir_old)
+                moved_aside = True
             # move new, unpacked repo into place
             os.rename(self.tempdir, self.basedir)
         except OSError as e:
+            if moved_aside and not os.path.exists(self.basedir):
+                # don't leave the user without a repo
+                os.rename(self.tempdir_old, self.basedir)
             raise base.SyncError(f"failed to update repo: {e.strerror}") from e
